@@ -92,6 +92,8 @@ PRE = [
     "(forall (?z - s) (exists (?w - t) (and (q ?w ?z) (not (= ?w ?z)))))",      # 21 nested quantifiers
     "(and (p ?x) (and (p ?y) (and (b) (or (b) (or (p ?x) (q ?x ?x))))))",       # 22 right-nested
     "(not (and (p ?x) (not (or (b) (not (q ?y ?x))))))",                        # 23 negated compound
+    "(and (forall (?z - s) (p ?z)) (exists (?z - t) (and (not (p ?z)) (not (= ?z ?x)))))",   # 24 one variable name, two types (subtype first)
+    "(and (exists (?z - t) (not (p ?z))) (forall (?z - s) (or (p ?z) (b))))",                # 25 the same, supertype first
 ]
 EFF = [
     "(and (b) (not (p ?x)))",                                                   # 0
@@ -290,7 +292,7 @@ def _rows(n, seed=0):
     return out
 
 
-GROUPS = [[0, 1], [2, 3], [4, 5], [6, 7], [8, 9], [10, 11], [12, 13], [14, 22], [15, 16], [17, 18], [20], [21, 23]]
+GROUPS = [[0, 1], [2, 3], [4, 5], [6, 7], [8, 9], [10, 11], [12, 13], [14, 22], [15, 16], [17, 18], [20], [21, 23], [24, 25]]
 # texts on which the readers are known to disagree (one shard each, see known_findings)
 FINDINGS = {
     "undef-init": dict(pre=[0, 6], effs=[0, 4], rows=[dict(r, init=2) for r in _rows(3)]),                  # functions without (= ...) in :init
